@@ -10,6 +10,7 @@ import (
 	"os"
 	"path/filepath"
 	"sort"
+	"strings"
 
 	carv2 "github.com/ipld/go-car/v2"
 	"github.com/ipld/go-car/v2/index"
@@ -29,6 +30,7 @@ type c03Desc struct {
 	ZeroEOF   bool   `json:"zeroeof,omitempty"`
 	MaxCid    uint64 `json:"maxcid,omitempty"`
 	Empty     bool   `json:"empty,omitempty"` // payload without any section
+	Big       int    `json:"big,omitempty"`   // >0: that many tiny sections (the index is built from tens of thousands of records)
 }
 
 type idxKey struct {
@@ -172,6 +174,14 @@ func runC03(t *mon.T, raw json.RawMessage) {
 		c03Empty(t, d, r, content)
 		return
 	}
+	if d.Big > 0 {
+		content.Blocks = content.Blocks[:0]
+		for i := 0; i < d.Big; i++ {
+			dg := gen.Bytes(r, []int{32, 32, 20, 64}[i%4])
+			content.Blocks = append(content.Blocks, refcar.Block{Cid: refcar.MakeCidV1(0x55, []uint64{0x12, 0x13}[i%2], dg), Data: []byte{byte(i), byte(i >> 8)}})
+		}
+		t.Cover("big-payloads")
+	}
 	// always include the designed corner cases
 	base := content.Blocks[0]
 	bc, _, _ := refcar.SplitCid(base.Cid)
@@ -194,6 +204,12 @@ func runC03(t *mon.T, raw json.RawMessage) {
 	}
 	file := payload
 	nullpad := 0
+	// the header's fully-indexed bit says how the file was WRITTEN; what an index generated now holds
+	// depends on the options given now, so the bit is set at random
+	bit := (d.Seed>>5)%2 == 0
+	if bit && !d.StoreID && strings.HasPrefix(d.Container, "v2") {
+		t.Cover("fully-indexed-bit-set-but-option-off")
+	}
 	switch d.Container {
 	case "v1":
 	case "v1-nullpad":
@@ -201,12 +217,12 @@ func runC03(t *mon.T, raw json.RawMessage) {
 		file = append(append([]byte{}, payload...), make([]byte, nullpad)...)
 	case "v2":
 		idx := refcar.BuildIndex(refcar.CodecMhIndexSorted, refcar.ExpectedIndexRecords(ref, refcar.CodecMhIndexSorted, d.StoreID))
-		file = refcar.EncodeV2(payload, refcar.V2Opts{Index: idx})
+		file = refcar.EncodeV2(payload, refcar.V2Opts{Index: idx, FullyIndexed: bit})
 	case "v2-pad":
 		idx := refcar.BuildIndex(refcar.CodecIndexSorted, refcar.ExpectedIndexRecords(ref, refcar.CodecIndexSorted, d.StoreID))
-		file = refcar.EncodeV2(payload, refcar.V2Opts{Index: idx, DataPadding: uint64(1 + r.Intn(2000)), IndexPadding: uint64(r.Intn(30))})
+		file = refcar.EncodeV2(payload, refcar.V2Opts{Index: idx, DataPadding: uint64(1 + r.Intn(2000)), IndexPadding: uint64(r.Intn(30)), FullyIndexed: bit})
 	case "v2-indexless":
-		file = refcar.EncodeV2(payload, refcar.V2Opts{DataPadding: uint64(r.Intn(9))})
+		file = refcar.EncodeV2(payload, refcar.V2Opts{DataPadding: uint64(r.Intn(9)), FullyIndexed: bit})
 	}
 	exp := c03Reference(ref, d.StoreID)
 	t.Cover("container:" + d.Container)
@@ -324,6 +340,9 @@ func runC03(t *mon.T, raw json.RawMessage) {
 	for _, b := range builders {
 		marsh[b.name] = map[string][]byte{}
 		for _, s := range sources {
+			if d.Big > 0 && s.name != "bytes.Reader" && s.name != "plain io.Reader" {
+				continue // two source kinds are enough for the payloads with tens of thousands of sections
+			}
 			if s.name == "Reader.DataReader" && d.Container == "v1-nullpad" && !d.ZeroEOF {
 				// fine: still expected to error
 			}
@@ -334,6 +353,33 @@ func runC03(t *mon.T, raw json.RawMessage) {
 			t.Cover("source:" + s.name)
 			if m := judge(label, b.kind, idx, err); m != nil {
 				marsh[b.name][s.name] = m
+			}
+		}
+	}
+	// a source that breaks: any access at or beyond byte j of the payload fails with a non-EOF error.
+	// Index generation needs every section's length and CID, so it cannot succeed — a nil error would
+	// mean an index that silently misses the sections after j (completeness)
+	if !expectNullErr && !expectTooLarge && len(ref.Sections) > 0 {
+		if a, derr := refcar.Decode(file, false); derr == nil {
+			last := ref.Sections[len(ref.Sections)-1]
+			// up to the last section's CID: beyond it a seeking indexer legitimately reads nothing more
+			lim := int(a.PayloadOff + last.DataOff)
+			for k := 0; k < 6; k++ {
+				j := int(a.PayloadOff) + r.Intn(lim-int(a.PayloadOff))
+				for _, b := range builders {
+					for _, mk := range []func() io.Reader{
+						func() io.Reader { return &lab.FailSrc{R: bytes.NewReader(file), N: int64(j)} },
+						func() io.Reader { return lab.PlainReader{R: &lab.FailSrc{R: bytes.NewReader(file), N: int64(j)}} },
+					} {
+						_, err := b.build(mk())
+						t.Events(1)
+						if err == nil {
+							t.ViolateD(b.name+"/failing-source/index-built", map[string]any{"fails_from_offset": j, "payload_offset": a.PayloadOff, "container": d.Container},
+								"%s returned no error although its source failed with an I/O error at byte %d (the last section's CID ends at %d)", b.name, j, lim)
+						}
+					}
+				}
+				t.Cover("failing-source-probes")
 			}
 		}
 	}
@@ -428,17 +474,20 @@ func genC03(g *mon.G) {
 	for i := 0; i < g.Pick(40, 200); i++ {
 		g.Emit(c03Desc{Seed: r.Int63(), Container: conts[i%len(conts)], StoreID: i%2 == 0, Empty: true})
 	}
+	for i := 0; i < g.Pick(3, 20); i++ {
+		g.Emit(c03Desc{Seed: r.Int63(), Container: []string{"v1", "v2-indexless", "v2-pad"}[i%3], StoreID: i%2 == 0, Big: []int{16500, 33000, 50000}[i%3] + r.Intn(3000)})
+	}
 }
 
 func init() {
 	Register(&mon.Check{
 		ID:          "C03",
 		Level:       "exploration",
-		Rule:        "cases = seeded payloads (synthetic + honest CIDs, duplicates, equal digest under two hash codes, identity with/without data, CIDv0, digest widths 0..80) x container {v1, null-padded v1, v2, padded v2, index-less v2} x {StoreIdentityCIDs, ZeroLengthSectionAsEOF, MaxIndexCidSize}; each is indexed by 3 builders from 7 source kinds (seekable, *os.File, plain reader, 1-byte reader, bufio.Reader and bytes.Buffer which are ByteReaders without Seek, Reader.DataReader) (+ file path and ReadOrGenerateIndex) and every index is probed with every present CID and 2-3 absent neighbours each; non-trivial = all",
+		Rule:        "cases = seeded payloads (a few with 16k-53k tiny sections; synthetic + honest CIDs, duplicates, equal digest under two hash codes, identity with/without data, CIDv0, digest widths 0..80) x container {v1, null-padded v1, v2, padded v2, index-less v2} x {StoreIdentityCIDs, ZeroLengthSectionAsEOF, MaxIndexCidSize}; each is indexed by 3 builders from 7 source kinds (seekable, *os.File, plain reader, 1-byte reader, bufio.Reader and bytes.Buffer which are ByteReaders without Seek, Reader.DataReader) (+ file path and ReadOrGenerateIndex) and every index is probed with every present CID and 2-3 absent neighbours each; non-trivial = all",
 		Assumptions: []string{"reference scan (refcar.DecodeV1) yields the true key → offsets multiset", "the insertion index is not an on-disk codec: digest-keyed or multihash-keyed GetAll answers are both accepted for it"},
 		Gen:         genC03,
 		Run:         runC03,
-		MinCover: map[string]int{
+		MinCover: map[string]int{"failing-source-probes": 500, "fully-indexed-bit-set-but-option-off": 50, "big-payloads": 3,
 			"container:v1": 20, "container:v1-nullpad": 20, "container:v2": 20, "container:v2-pad": 20, "container:v2-indexless": 20,
 			"index-built": 500, "empty-payload:v2": 3, "empty-payload:v2-pad": 3, "empty-payload:v1": 3, "cid-too-large-rejected": 10, "source:plain io.Reader": 100, "source:bufio.Reader (ByteReader, no Seek)": 100, "source:bytes.Buffer (ByteReader, no Seek)": 100, "source:Reader.DataReader": 100,
 		},
